@@ -2314,3 +2314,43 @@ pub fn c16_base(ctx: &mut Ctx, value: &str) {
     }
     ctx.nontrivial_cur();
 }
+
+// =====================================================================  C13 (family lock-step)
+
+/// Observations of one family on ASCII inputs; the two families must produce identical vectors.
+pub fn lockstep(a: &str, bb: &str, ops_text: &str) -> Vec<String> {
+    let mut out: Vec<String> = Vec::new();
+    let lossy = |x: &[u8]| String::from_utf8_lossy(x).to_string();
+    let (Ok(x), Ok(y)) = (RiRef::new(a), RiRef::new(bb)) else { out.push("rejected".into()); return out; };
+    let r = crate::ctx::guard(|| {
+        let mut o: Vec<String> = Vec::new();
+        let p = x.parts();
+        o.push(format!("parts {:?} {:?} {:?} {:?} {:?}", p.scheme.map(|s| lossy(s.as_bytes())), p.authority.map(|s| lossy(s.as_bytes())), lossy(p.path.as_bytes()), p.query.map(|s| lossy(s.as_bytes())), p.fragment.map(|s| lossy(s.as_bytes()))));
+        if let Some(au) = x.authority() {
+            let ap = au.parts();
+            o.push(format!("authority {:?} {:?} {:?}", ap.user_info.map(|s| lossy(s.as_bytes())), lossy(ap.host.as_bytes()), ap.port.map(|s| lossy(s.as_bytes()))));
+        }
+        o.push(format!("segments {:?}", x.path().segments().map(|s| lossy(s.as_bytes())).collect::<Vec<_>>()));
+        o.push(format!("normalized {:?}", lossy(x.path().normalized().as_bytes())));
+        o.push(format!("eq {} cmp {:?} hash-eq {}", x == y, x.cmp(y), fnv(x) == fnv(y)));
+        o.push(format!("hash {}", fnv(x)));
+        o.push(format!("base {:?}", lossy(x.base().as_bytes())));
+        o.push(format!("suffix {:?}", x.suffix(y).map(|(p, q, f)| (lossy(p.as_bytes()), q.map(|s| lossy(s.as_bytes())), f.map(|s| lossy(s.as_bytes()))))));
+        o.push(format!("relative_to {:?}", lossy(x.relative_to(y).as_bytes())));
+        if let Some(yi) = y.as_full() {
+            o.push(format!("resolved {:?}", lossy(x.resolved(yi).as_bytes())));
+        }
+        let mut buf = x.to_owned();
+        for op in parse_ops(ops_text) {
+            if !op.args_valid() { continue; }
+            apply_ref_op(&mut buf, &op);
+            o.push(format!("after {} {:?}", op.name(), lossy(buf.as_bytes())));
+        }
+        o
+    });
+    match r {
+        Ok(o) => out.extend(o),
+        Err(m) => out.push(format!("panic {}", m.split('@').next().unwrap_or(""))),
+    }
+    out
+}
